@@ -39,24 +39,33 @@ def _digests(prop, runs, seed, procs, hashseed, repo=None, tier="quick"):
 
 
 def determinism(props, runs, seed):
+    """Same seed, fresh interpreters: identical per-run digests at different
+    worker counts under each PYTHONHASHSEED; identical verdict across hash
+    seeds (digests may legitimately differ across hash seeds: rope iterates
+    sets of resources, e.g. when a refactoring collects the files to change, so
+    another string-hash seed is another -- equally valid -- execution)."""
     ok = True
     for prop in props:
-        base_rc, base, out = _digests(prop, runs, seed, 16, 0)
-        if len(base) != runs:
-            print("SELFTEST determinism %s: only %d of %d digests (rc=%d)\n%s" % (prop, len(base), runs, base_rc, out))
-            ok = False
-            continue
-        for procs, hs in ((3, 0), (7, 1), (16, 2)):
-            rc, d, out = _digests(prop, runs, seed, procs, hs)
-            diff = [i for i in base if d.get(i) != base[i]]
-            if rc != base_rc or diff:
+        rcs = {}
+        for hs, (p1, p2) in ((0, (16, 3)), (1, (7, 16)), (2, (16, 5))):
+            rc1, d1, out1 = _digests(prop, runs, seed, p1, hs)
+            rc2, d2, out2 = _digests(prop, runs, seed, p2, hs)
+            rcs[hs] = rc1
+            if len(d1) != runs or len(d2) != runs:
+                print("SELFTEST determinism %s: missing digests (hashseed %d: %d/%d of %d, rc=%d/%d)\n%s" % (
+                    prop, hs, len(d1), len(d2), runs, rc1, rc2, out1[-600:]))
                 ok = False
-                print(
-                    "SELFTEST determinism %s FAILED: procs=%d hashseed=%d rc=%d/%d, %d of %d digests differ (first runs: %s)"
-                    % (prop, procs, hs, rc, base_rc, len(diff), runs, diff[:8])
-                )
+                continue
+            diff = [i for i in d1 if d2.get(i) != d1[i]]
+            if rc1 != rc2 or diff:
+                ok = False
+                print("SELFTEST determinism %s FAILED: hashseed=%d procs=%d vs %d: rc=%d/%d, %d of %d digests differ (first runs: %s)"
+                      % (prop, hs, p1, p2, rc1, rc2, len(diff), runs, diff[:8]))
             else:
-                print("SELFTEST determinism %s ok: procs=%d hashseed=%d, %d digests identical" % (prop, procs, hs, runs))
+                print("SELFTEST determinism %s ok: hashseed=%d, procs=%d vs %d, %d digests identical" % (prop, hs, p1, p2, runs))
+        if len(set(rcs.values())) > 1:
+            ok = False
+            print("SELFTEST determinism %s FAILED: verdict depends on PYTHONHASHSEED: %s" % (prop, rcs))
     return ok
 
 
